@@ -11,7 +11,24 @@ func init() {
 		ID: "C08",
 		Gen: func(t *rapid.T, tier string) *world.Plan {
 			p := genPlan(t, genOpts{sched: true, layouts: true, premiums: true, maxCrashes: 1, maxFaults: 1, duration: []int{120, 300}, adapters: 60, clnAdapters: 60,
-				sites: []string{"ln.invoice", "lwallet.open", "btcwallet.open", "store.update"}})
+				sites: []string{"ln.invoice", "lwallet.open", "btcwallet.open", "store.update"}, realLWallet: 70})
+			if rapid.IntRange(0, 4).Draw(t, "wallet-trouble") == 0 && len(p.Ops) > 0 {
+				// focused: the wallet daemon refuses the first broadcast of the opening (min relay
+				// fee) or its acknowledgement is lost, and it places the outputs it adds at a random
+				// position anew for every funding; the message must describe what was broadcast
+				op := p.Ops[0]
+				maker := op.Node
+				if op.Kind == "swapout" {
+					maker = 1 - op.Node
+				}
+				site := "lwallet.open"
+				if op.Chain == "btc" {
+					site = pick(t, "wtsite", []string{"btcwallet.open", "btcwallet.publish"})
+				}
+				p.Scn.Layout[maker].Change, p.Scn.Layout[maker].RandomPos, p.Scn.Layout[maker].Extra = true, true, rapid.IntRange(0, 2).Draw(t, "wtextra")
+				p.Scn.RealLiquidWallet[maker] = true
+				p.Faults = []world.Fault{{Node: maker, Site: site, Occ: 1, Kind: pick(t, "wtkind", []string{"reject26", "reject26", "errafter", "err"}), N: 1}}
+			}
 			return p
 		},
 		Monitors:   world.MonitorsFor("C08"),
@@ -20,7 +37,7 @@ func init() {
 	register(&PropDef{
 		ID: "C03",
 		Gen: func(t *rapid.T, tier string) *world.Plan {
-			p := genPlan(t, genOpts{sched: true, layouts: true, premiums: true, maxCrashes: 1, maxFaults: 2, maxLN: 1, silence: true, healProb: 60, adapters: 60, clnAdapters: 60,
+			p := genPlan(t, genOpts{sched: true, layouts: true, premiums: true, maxCrashes: 1, maxFaults: 2, maxLN: 1, silence: true, healProb: 60, adapters: 60, clnAdapters: 60, realLWallet: 70,
 				sites:      []string{"lwallet.fee", "btc.estimatefee", "lwallet.newaddr", "btcwallet.newaddr", "lwallet.sendraw", "btcwallet.spend", "ln.pay"},
 				faultKinds: []string{"err", "zero", "huge", "errafter"}, inject: []string{"cancel"}, maxInject: 1})
 			for i := range p.Scn.BtcFeePerKw {
